@@ -128,7 +128,7 @@ func (s *deepSeed) emit(stream, label string, msg []byte, emit func(Case)) {
 	// io.ErrUnexpectedEOF and its decode errors are all "the header does not decode"); the stricter comparison is for
 	// what the packet reads report
 	cmp := resCmp
-	if strings.HasPrefix(label, "packet-") || strings.HasPrefix(label, "det/") {
+	if strings.HasPrefix(label, "packet-") || strings.HasPrefix(label, "det/sig") {
 		cmp = codecDeepClassCmp
 	}
 	base := cmp
